@@ -60,9 +60,9 @@ type spec struct {
 	Rows        int    `json:"rows"`
 	Cols        int    `json:"cols"`
 	// the reference terminal the bytes are interpreted on
-	HonoursInband bool  `json:"honours_inband"`
-	Kitty0        []int `json:"kitty0"`
-	Ops           []op  `json:"ops"`
+	HonoursInband bool   `json:"honours_inband"`
+	Kitty0        []int  `json:"kitty0"`
+	Ops           []op   `json:"ops"`
 	Class         string `json:"class,omitempty"`
 }
 
